@@ -3,10 +3,15 @@
 its own property, undo; prints which were caught. Writes seeded/REGRESSION.txt."""
 import json, os, subprocess, sys, glob
 tier = sys.argv[1] if len(sys.argv) > 1 else "quick"
+# evalall.py quick --skip C06 : leave out a property's changes (the C06 family makes runs time out, 30 s per case)
+skip = sys.argv[sys.argv.index("--skip") + 1].split(",") if "--skip" in sys.argv else []
+only = sys.argv[sys.argv.index("--only") + 1].split(",") if "--only" in sys.argv else []
 rows = []
 for d in sorted(glob.glob("/verif/seeded/C*-*")):
     meta = json.load(open(os.path.join(d, "meta.json")))
     prop = meta["property"]
+    if prop in skip or (only and prop not in only):
+        continue
     assert subprocess.run(["git", "-C", "/repo", "diff", "--quiet"]).returncode == 0, "/repo dirty"
     subprocess.run(["git", "-C", "/repo", "apply", os.path.join(d, "patch.diff")], check=True)
     try:
@@ -19,7 +24,7 @@ for d in sorted(glob.glob("/verif/seeded/C*-*")):
     print(rows[-1], flush=True)
 subprocess.run(["rm", "-rf", "/verif/replays"])
 with open("/verif/seeded/REGRESSION.txt", "w") as fh:
-    fh.write("seeded change | property | check exit | VIOLATION lines | first detail   (tier %s)\n" % tier)
+    fh.write("seeded change | property | check exit | VIOLATION lines | first detail   (tier %s%s%s)\n" % (tier, " skipped: " + ",".join(skip) if skip else "", " only: " + ",".join(only) if only else ""))
     for r in rows:
         fh.write(" | ".join(str(x) for x in r) + "\n")
 missed = [r[0] for r in rows if r[2] == 0]
